@@ -304,4 +304,69 @@ theorem api_patterns_are_the_modelled_shapes :
     (∀ r ∈ websiteRoutes, ["/{bucket}", "/{bucket}/{key...}"].contains r.2.1 = true) := by
   decide
 
+/-! ### Part 3: which hosts are the API -/
+
+/-- **api_host_iff.** A host is routed to the API mux iff (without its port) it is the API endpoint
+or a true subdomain of it — for every endpoint and every host string. -/
+theorem api_host_iff (apiEp webEp host : List Char) :
+    route apiEp webEp host = .api ↔
+      (stripPort host = apiEp ∨ (dotted apiEp) <:+ stripPort host) := by
+  unfold route
+  simp only [isApiHost, Bool.or_eq_true, beq_iff_eq, List.isSuffixOf_iff_suffix]
+  constructor
+  · intro h
+    split at h
+    · assumption
+    · split at h <;> simp at h
+  · intro h; simp [h]
+
+/-- **every_other_host_is_a_site_host.** A host that is not the API endpoint or a true subdomain of
+it is handed to the website family (website-endpoint bucket or custom domain), whose mux and
+handlers are read-only by `website_routes_readonly` / `site_entry_points_serve_website_mux_only`. -/
+theorem every_other_host_is_a_site_host (apiEp webEp host : List Char)
+    (h : Spec.isApiHost apiEp host = false) :
+    (∃ b, route apiEp webEp host = .website b) ∨ (∃ b, route apiEp webEp host = .custom b) := by
+  have h' : isApiHost apiEp (stripPort host) = false := by simpa [Spec.isApiHost, isApiHost] using h
+  unfold route
+  simp only [h', Bool.false_eq_true, if_false]
+  split
+  · exact Or.inl ⟨_, rfl⟩
+  · exact Or.inr ⟨_, rfl⟩
+
+open Pithos.Gen.C33Routes in
+/-- The host tests regenerated from hostrouting.go and virtualhostbucketaddressing.go are the ones
+the model mirrors: API = `host == ep || HasSuffix(host, "."+ep)`, website = `HasSuffix(host,
+"."+web)`, virtual-host rewrite = `host != ep && HasSuffix(host, "."+ep)`; all three readers of
+`r.Host` strip the port the same way. -/
+theorem host_tests_are_the_modelled_ones :
+    routerHostTests = [(.or (.eq "api") (.hasSuffixDot "api"), ["apiHandler"]),
+                       (.hasSuffixDot "website", ["rewrite", "websiteHandler"])] ∧
+    vhostHostTests = [(.and (.ne "api") (.hasSuffixDot "api"), ["rewrite"])] ∧
+    portStrips = List.replicate 3
+      "if colonIdx := strings.LastIndex(h, \":\"); colonIdx != -1 { if bracketIdx := strings.LastIndex(h, \"]\"); bracketIdx < colonIdx { h = h[:colonIdx] } }" := by
+  refine ⟨by decide, by decide, rfl⟩
+
+open Pithos.Gen.C33Routes in
+/-- Semantically: the router's regenerated API test computes exactly `isApiHost`, for all hosts. -/
+theorem router_api_test_is_the_true_subdomain_test (eps : String → List Char) (h : List Char) :
+    (routerHostTests.map (·.1)).head?.map (·.eval eps h) = some (isApiHost (eps "api") h) := by
+  simp [routerHostTests, HostExpr.eval, isApiHost, dotted]
+
+/-- Adversarial hosts built from the endpoints: endpoint as infix, as prefix, as suffix without the
+dot, other letter case, trailing dot, IP literals — none is an API host; true subdomains (with or
+without port) are. -/
+example :
+    let r := fun (h : String) => route "s3.localhost".toList "s3-website.localhost".toList h.toList
+    r "assets.s3.localhost.cdn.example.net" = .custom "assets.s3.localhost.cdn.example.net".toList ∧
+    r "assets.s3.localhost.cdn.example.net:8080" = .custom "assets.s3.localhost.cdn.example.net".toList ∧
+    r "s3.localhost.evil.org" = .custom "s3.localhost.evil.org".toList ∧
+    r "evils3.localhost" = .custom "evils3.localhost".toList ∧
+    r "S3.LOCALHOST" = .custom "S3.LOCALHOST".toList ∧
+    r "b.s3.localhost." = .custom "b.s3.localhost.".toList ∧
+    r "[::1]:9000" = .custom "[::1]".toList ∧
+    r "b.s3-website.localhost.evil.org" = .custom "b.s3-website.localhost.evil.org".toList ∧
+    r "b.s3-website.localhost:80" = .website "b".toList ∧
+    r "s3.localhost:9000" = .api ∧ r "b.s3.localhost" = .api ∧ r "x.s3.localhost.y.s3.localhost:1" = .api := by
+  decide
+
 end Pithos.C33
